@@ -266,6 +266,20 @@ Definition prop_perform_join (args : list bytes) : bytes :=
   | _ => bs "badargs"
   end.
 
+(* fields of an event text: [scenario; event id; event text] *)
+Definition run_fields (args : list bytes) : bytes :=
+  match args with
+  | [_; eid; evt] =>
+      match parse_json evt with
+      | Some ev =>
+          let f := fields_of_event ev eid in
+          entry [ef_type f; opt_bytes (ef_state_key f); ef_sender f; ef_room_id f; ef_event_id f;
+                 opt_bytes (ef_membership f); ef_authorised_via f]
+      | None => bs "unparsable"
+      end
+  | _ => bs "badargs"
+  end.
+
 Definition ops_C15 : list (bytes * (list bytes -> bytes)) :=
   [ (bs "C15.make_join", run_make_join);
     (bs "C15.make_leave", run_make_leave);
@@ -273,6 +287,7 @@ Definition ops_C15 : list (bytes * (list bytes -> bytes)) :=
     (bs "C15.invite", run_invite);
     (bs "C15.perform_join", run_perform_join);
     (bs "C15.restricted_join", run_restricted_join);
+    (bs "C15.fields", run_fields);
     (bs "C15.prop.make_join", prop_make_join);
     (bs "C15.prop.make_leave", prop_make_leave);
     (bs "C15.prop.send_join", prop_send_join);
